@@ -143,4 +143,10 @@ theorem sort_outer_code (truth : Term → Bool) :
 
 theorem sort_signature : DataFrame_sort_signature = ["self", "**colname_dir_pairs"] ∧ DataFrame_sort_decorators = ["deco.new_from_generator"] := ⟨rfl, rfl⟩
 
+/-! ### evaluation order -/
+
+/-- `sort` computes the ONE index vector (keys of the reversed pairs, `np.lexsort`) before the loop over the columns. -/
+theorem sort_call_order :
+    DataFrame_sort_call_order = ["sort_key", "colname_dir_pairs.items", "reversed", "tuple", "np.lexsort", "self.items", "column[indices].copy"] := rfl
+
 end DI.Tie.C03
